@@ -1,5 +1,5 @@
 CONSTANTS Mode = "lvl4"
-  NCand = 9
+  NCand = 5
 INIT Init
 NEXT Next
 INVARIANT TypeOK
